@@ -430,8 +430,10 @@ class Worker:
                 # If any of the selected tasks ancestor tasks are cancelled
                 # then discard this one too. Each breadcrumb (bcb) is a
                 # task address (unique system-wide task id) of an ancestor
-                # task.
-                # TODO: do I need to manually remove addr from self._tasks?
+                # task. The task arrived after the cancel was handled, so
+                # _handle_cancel could not remove it: forget it here.
+                task.cancel()
+                self._tasks.pop(addr)
                 continue
 
             return task
